@@ -216,15 +216,39 @@ def r3(tree, rep, nts):
                 types_written.setdefault(cls, set()).add(t)
     # decoder: which constructor for which type string
     dec = {}
-    for st in ast.walk(pt):
-        if isinstance(st, ast.If) and isinstance(st.test, ast.Compare) and isinstance(st.test.ops[0], ast.Eq) and isinstance(const(st.test.comparators[0]), str):
-            t = const(st.test.comparators[0])
-            for body, key in ((st.body, t), (st.orelse, None)):
-                for c in [c for s in body for c in ast.walk(s) if isinstance(c, ast.Call) and dotted(c.func) in nts]:
-                    if key:
-                        dec[key] = dotted(c.func)
-                    else:
-                        dec["<other>"] = dotted(c.func)
+    from ..cfg import build as _build
+    gpt = _build(pt, split=True)
+    tvar = [n.targets[0].id for n in ast.walk(pt) if isinstance(n, ast.Assign) and isinstance(n.targets[0], ast.Name) and isinstance(n.value, ast.Call)
+            and isinstance(n.value.func, ast.Attribute) and n.value.func.attr == "get" and n.value.args and const(n.value.args[0]) == "type"]
+    accepted = set()
+    for n in ast.walk(pt):
+        if isinstance(n, ast.Compare) and len(n.ops) == 1 and isinstance(n.left, ast.Name) and n.left.id in tvar:
+            c0 = n.comparators[0]
+            if isinstance(n.ops[0], (ast.In, ast.NotIn)) and isinstance(c0, (ast.List, ast.Tuple, ast.Set)):
+                accepted |= {const(e) for e in c0.elts if isinstance(const(e), str)}
+            elif isinstance(n.ops[0], (ast.Eq, ast.NotEq)) and isinstance(const(c0), str):
+                accepted.add(const(c0))
+    for tstr in sorted(accepted):
+        def oracle(test, tstr=tstr):
+            if isinstance(test, ast.Compare) and len(test.ops) == 1 and isinstance(test.left, ast.Name) and test.left.id in tvar:
+                c0 = test.comparators[0]
+                if isinstance(test.ops[0], (ast.Eq, ast.NotEq)) and isinstance(const(c0), str):
+                    eq = const(c0) == tstr
+                    return eq if isinstance(test.ops[0], ast.Eq) else not eq
+                if isinstance(test.ops[0], (ast.In, ast.NotIn)) and isinstance(c0, (ast.List, ast.Tuple, ast.Set)):
+                    inn = tstr in {const(e) for e in c0.elts}
+                    return inn if isinstance(test.ops[0], ast.In) else not inn
+            return None
+        ctors = set()
+        for nodes, end in gpt.paths_under(oracle):
+            for x in nodes:
+                st = gpt.stmt[x]
+                if isinstance(st, ast.Return) and isinstance(st.value, ast.Call) and dotted(st.value.func) in nts:
+                    ctors.add(dotted(st.value.func))
+        if len(ctors) == 1:
+            dec[tstr] = ctors.pop()
+    if dec.get("tor-tcp-v1"):
+        dec["<other>"] = dec["tor-tcp-v1"]
     ok = dec.get("direct-tcp-v1") == "DirectTCPV1Hint" and dec.get("<other>") == "TorTCPV1Hint" and types_written.get("DirectTCPV1Hint") >= {"direct-tcp-v1"} \
         and types_written.get("TorTCPV1Hint") == {"tor-tcp-v1"} and "relay-v1" in types_written.get("RelayV1Hint", set())
     rep.check("C20.R3", "type strings map to the same hint classes on both sides (%s / %s)" % (dec, {k: sorted(v) for k, v in types_written.items()}), ok,
@@ -234,6 +258,9 @@ def r3(tree, rep, nts):
         fields = nts[dotted(c.func)]
         ok = len(c.args) == 3
         for f, a in zip(fields[:2], c.args[:2]):
+            if isinstance(a, ast.Name):
+                from ..astutil import resolve_local
+                a = resolve_local(pt, a)          # hostname = hint["hostname"]
             ok = ok and isinstance(a, ast.Subscript) and const(a.slice) == f
         pr = c.args[2] if len(c.args) == 3 else None
         ok = ok and isinstance(pr, ast.Name) and fields[2] == "priority"
